@@ -67,6 +67,13 @@ Failures(c) ==
   \o (IF c.operators # OperatorsOf(s) THEN <<F("OperatorsPrefixOrder", "")>> ELSE <<>>)
   \o (IF c.quantifiers # QuantifiersOf(s) THEN <<F("QuantifiersPrefixOrder", "")>> ELSE <<>>)
   \o (IF c.roundtrip # s THEN <<F("EncodingRoundTrip", "")>> ELSE <<>>)
+  \* the published attributes of every RESULT of a substitution / instantiation, and of its sub-sentences, are those
+  \* obtained by walking that result
+  \o (IF \E j \in 1..Len(c.derived) : LET x == c.derived[j] IN
+            \/ SeqToSet(x.constants) # ConstantsOf(x.s) \/ Len(x.constants) # Cardinality(ConstantsOf(x.s))
+            \/ SeqToSet(x.variables) # VariablesOf(x.s) \/ Len(x.variables) # Cardinality(VariablesOf(x.s))
+            \/ x.quantifiers # QuantifiersOf(x.s) \/ x.operators # OperatorsOf(x.s)
+      THEN <<F("DerivedAttributesOfResults", "")>> ELSE <<>>)
 
 VARIABLES i, bad
 B == INSTANCE Batch
